@@ -31,18 +31,21 @@ package mocker
 //@ pure func var_target_ok(m *defaultVarMocker) bool = m != nil && rv_valid(m.targetValue) && rv_kind(m.targetValue) == reflect.Ptr && !rv_isnil(m.targetValue)
 //@ pure func var_addr(m *defaultVarMocker) uintptr = rv_pointer(m.targetValue)
 // the remembered original is the value before the FIRST overwrite; a mocker that never set anything remembers nothing
-//@ pure func var_inv(m *defaultVarMocker) bool = (var_everset[m] ==> m.originValue == var_first[m]) && (!var_everset[m] ==> m.originValue == nil)
+//@ pure func var_type(m *defaultVarMocker) reflect.Type = rt_elem(rv_type(m.targetValue))
+//@ pure func var_inv(m *defaultVarMocker) bool = var_everset[m] == m.originSaved && (var_everset[m] ==> m.originValue == var_first[m])
+//@   | && (m.originSaved && m.originValue == nil ==> rt_kind(var_type(m)) == reflect.Interface)
+//@   | && (m.originSaved && m.originValue != nil ==> rt_assignable(rt_of(typeof(m.originValue)), var_type(m)))
 
 //@ func (m *defaultVarMocker) doSet
 //@   props C08
 //@   requires target: var_target_ok(m)
 //@   requires inv: var_inv(m)
-//@   assigns m.originValue, m.mockValue, varval[var_addr(m)], var_everset[m], var_first[m]
+//@   assigns m.originValue, m.originSaved, m.mockValue, varval[var_addr(m)], var_everset[m], var_first[m]
 //@   ghost_set var_first[m] = ite(old(var_everset[m]), old(var_first[m]), old(varval[var_addr(m)]))
 //@   ghost_set var_everset[m] = true
 //@   ensures takes_effect: varval[var_addr(m)] == value
 //@   ensures first_value_remembered: var_inv(m)
-//@   panics_only_if bad_value: value == nil || rv_type(value_of(value)) != rt_elem(rv_type(m.targetValue))
+//@   panics_only_if bad_value: value == nil || !rt_assignable(rt_of(typeof(value)), var_type(m))
 //@   ensures_on_panic untouched: varval[var_addr(m)] == old(varval[var_addr(m)])
 
 //@ func (m *defaultVarMocker) Cancel
